@@ -66,6 +66,31 @@ impl<S: Storage> TaskDb<S> {
         ensures final(self).storage.view() == old(self).storage.view(),
             r matches Ok(v) ==> tasks_listed(v@, old(self).storage.view().tasks),
     { unimplemented!() }
+
+//@watch C18 C15 :: src/taskdb/mod.rs :: impl<S: Storage> TaskDb<S> :: fn working_set
+    #[verifier::external_body]
+    pub fn working_set(&mut self) -> (r: Result<Vec<Option<Uuid>>>)
+        ensures final(self).storage.view() == old(self).storage.view(),
+            r matches Ok(v) ==> v@ == old(self).storage.view().ws && ws_wf(v@),
+    { unimplemented!() }
+
+//@watch C18 :: src/taskdb/mod.rs :: impl<S: Storage> TaskDb<S> :: fn get_task
+    #[verifier::external_body]
+    pub fn get_task(&mut self, uuid: Uuid) -> (r: Result<Option<TaskMap>>)
+        ensures final(self).storage.view() == old(self).storage.view(),
+            match r {
+                Ok(Some(m)) => old(self).storage.view().tasks.dom().contains(uuid) && m@ == old(self).storage.view().tasks[uuid],
+                Ok(None) => !old(self).storage.view().tasks.dom().contains(uuid),
+                Err(_) => true,
+            },
+    { unimplemented!() }
+
+//@watch C18 :: src/taskdb/mod.rs :: impl<S: Storage> TaskDb<S> :: fn all_task_uuids
+    #[verifier::external_body]
+    pub fn all_task_uuids(&mut self) -> (r: Result<Vec<Uuid>>)
+        ensures final(self).storage.view() == old(self).storage.view(),
+            r matches Ok(v) ==> uuids_listed(v@, old(self).storage.view().tasks),
+    { unimplemented!() }
 }
 /// the contract of undo::commit_reversed_operations (regions/undo_impl.rs), as a relation between the views before and after
 pub open spec fn undo_post(s0: TxnView, un: Seq<Operation>, b: bool, s1: TxnView) -> bool {
